@@ -134,8 +134,27 @@ func permSubs(rt *rapid.T, subs []subSpec, label string) []subSpec {
 	out = append([]subSpec(nil), out...)
 	for i := range out {
 		if len(out[i].Backends) > 1 {
-			out[i].Backends = rapid.Permutation(out[i].Backends).Draw(rt, fmt.Sprintf("%s.b%d", label, i))
+			orig := out[i].Backends
+			out[i].Backends = keepDupOrder(rapid.Permutation(orig).Draw(rt, fmt.Sprintf("%s.b%d", label, i)), orig)
 		}
+	}
+	return out
+}
+
+// keepDupOrder: entries listing the same addr:port are one backend whose last
+// entry wins (cluster_table semantics of bfe), so "the same configuration in
+// another order" keeps the relative order of such entries: they are put, in
+// their original order, on the positions the permutation gave to that address.
+func keepDupOrder(perm, orig []beSpec) []beSpec {
+	byKey := map[string][]beSpec{}
+	for _, b := range orig {
+		byKey[b.key()] = append(byKey[b.key()], b)
+	}
+	out := append([]beSpec(nil), perm...)
+	for i, b := range out {
+		q := byKey[b.key()]
+		out[i] = q[0]
+		byKey[b.key()] = q[1:]
 	}
 	return out
 }
@@ -303,7 +322,8 @@ func genC02Plan(rt *rapid.T) c02Plan {
 		}
 	}
 	p.Perm = permSubs(rt, p.Subs, "perm")
-	if !dup && rapid.Bool().Draw(rt, "reloadVariant") {
+	_ = dup // fresh start and reload agree on duplicate endpoints since bfe 1a6d0c5
+	if rapid.Bool().Draw(rt, "reloadVariant") {
 		p.Pre = genPre(rt, p.Subs)
 		p.PermC = permSubs(rt, p.Subs, "permC")
 	}
@@ -353,13 +373,21 @@ func subTargets(subs []subSpec) []target {
 }
 
 // beTargets: eligible backends with their effective (x100) weights; avail==nil
-// means all available.
+// means all available. An addr:port listed more than once is one backend: its
+// last entry (cluster_table semantics, same for a fresh start and a reload).
 func beTargets(s subSpec, avail map[string]bool) []target {
 	var ts []target
 	if s.NoList {
 		return nil
 	}
-	for _, b := range s.Backends {
+	last := map[string]int{}
+	for i, b := range s.Backends {
+		last[b.key()] = i
+	}
+	for i, b := range s.Backends {
+		if last[b.key()] != i {
+			continue
+		}
 		if b.Weight > 0 && (avail == nil || avail[s.Name+"/"+b.key()]) {
 			ts = append(ts, target{b.key(), b.Weight * 100})
 		}
